@@ -4,8 +4,9 @@
    optional default:update, optional `ignore B`.  S, T = struct{A, B int}; NewT yields {A:100, B:200}; the non-nil
    source is {A:5, B:6}.  Expect* state what C11 demands of the result fields: a number, or -1 for "open".    *)
 EXTENDS Integers, Sequences, FiniteSets, TLC
-DProgs == {[srcPtr |-> sp, tgtPtr |-> tp, funcPtr |-> fp, funcSrc |-> fs, upd |-> u, ignoreB |-> ig, zskip |-> z] :
-             sp \in BOOLEAN, tp \in BOOLEAN, fp \in BOOLEAN, fs \in BOOLEAN, u \in BOOLEAN, ig \in BOOLEAN, z \in BOOLEAN}
+\* noflag: a pointer source with a value target *without* useZeroValueOnPointerInconsistency: must not be generated, default or not
+DProgs == {p \in [srcPtr : BOOLEAN, tgtPtr : BOOLEAN, funcPtr : BOOLEAN, funcSrc : BOOLEAN, upd : BOOLEAN, ignoreB : BOOLEAN, zskip : BOOLEAN, noflag : BOOLEAN] :
+             p.noflag => (p.srcPtr /\ ~p.tgtPtr /\ ~p.zskip /\ ~p.ignoreB)}
 \* FUNC's result must be usable for the target: a pointer result only for a pointer target
 \* (a pointer source with a value target additionally needs useZeroValueOnPointerInconsistency: the materialiser sets it)
 DValid(p) == p.funcPtr => p.tgtPtr
@@ -16,6 +17,7 @@ ExpectNil(p) == [A |-> 100, B |-> 200]
 \* non-nil source: mapped fields carry the source; ignored fields keep FUNC's values when the method builds into it
 \* source {A:5, B:0} with default:update and update:ignoreZeroValueField: the zero field does not overwrite FUNC's value
 \* (judged for pointer sources only: default:update speaks of a non-nil source; for a value source the zero field is left open)
-ExpectZeroB(p) == [A |-> 5, B |-> IF p.ignoreB /\ BuildsInto(p) THEN 200 ELSE IF ~p.ignoreB /\ p.srcPtr /\ p.upd /\ p.zskip THEN 200 ELSE -1]
+\* ... and for a value source with a pointer target, where the method assigns through FUNC's pointer
+ExpectZeroB(p) == [A |-> 5, B |-> IF p.ignoreB /\ BuildsInto(p) THEN 200 ELSE IF ~p.ignoreB /\ (p.srcPtr \/ p.tgtPtr) /\ p.upd /\ p.zskip THEN 200 ELSE -1]
 ExpectVal(p) == [A |-> 5, B |-> IF ~p.ignoreB THEN 6 ELSE IF BuildsInto(p) THEN 200 ELSE -1]
 =============================================================================
